@@ -236,6 +236,9 @@ func init() {
 	// --- only unknown fields
 	add("empty", func() proto.Message { return &emptypb.Empty{} })
 	add("empty-unknown", func() proto.Message { return withUnknown(&emptypb.Empty{}, 6) })
+
+	// --- descriptorpb.MethodOptions: an extendable type, with extension fields set (cfg.go)
+	addExtSpecs()
 }
 
 // filler returns the specs used to pre-populate a destination of type typ when
@@ -296,7 +299,7 @@ func asDyn(gen proto.Message) *dynamic.Message {
 func (s *spec) instance(rep string) interface{} {
 	g := s.build()
 	if isDyn(rep) {
-		return asDynP(g, repProv(rep))
+		return asDynPC(g, repProv(rep), repCfg(rep))
 	}
 	return g
 }
